@@ -16,8 +16,9 @@ functions (coq/Extract/Api_AbsGraph.v):
                                                    both sides of every '*')
   stage final        (the dumped *_main_PVG.json)  equal to the graph after cleavage (else checked like stage cleave)
 
-A failure is a C02-type (a path that should not exist) or C01-type (a path that is missing) violation LOCALISED to the
-stage: the stage is part of the violation text and of the replay.
+A stage failure is a C02-type (a path that should not exist) or C01-type (a path that is missing) deviation LOCALISED
+to the stage.  It is reported as a VIOLATION only when an output-level failure of the same run corroborates it (the
+properties speak about the final peptide set: see run_batch / judge_outputs); otherwise it is counted as a stage anomaly.
 
 Round 2: (1) at stage tvg-bubbles the real graph is also compared with the MODEL graph  lang (add_bubbles tx records)
 (api ag_bubbles; theorem add_bubbles_lang says that language is the haplotype set); (2) fusion graphs
@@ -405,13 +406,92 @@ def run_batch(ctx, cases, violations, stats, tag='cvg'):
                 per[key]['n'] += 1
                 continue
             per[key] = {'n': 1, 'what': what, 'case': c, 'run': run, 'stage': meta['stage'], 'tx': meta['tx'], 'tag': tag_, 'ctype': ctype}
+    # A stage invariant is a SUFFICIENT condition for C01 / C02, not a necessary one: the properties speak about the final
+    # peptide set.  A stage failure is therefore printed as a violation only when it is CORROBORATED by an output-level
+    # failure of the SAME run (an obliged peptide missing from this run's FASTA, or a FASTA sequence of this transcript /
+    # fusion / circRNA that is not realizable), judged by the existing output-level judges (cvcheck / cvcheck2) on the
+    # FASTA the worker already has; the stage then is the LOCALISATION.  Uncorroborated stage failures are engine-internal
+    # deviations from the design invariant that did not reach the output: counted in stats['stage_anomalies'], up to 5
+    # replays kept under evidence/replays (names that are never reported as violations).
+    an = stats.get('stage_anomalies') or {'counts': {}, 'replays': [], 'examples': []}
+    evs = {}
+    if per:
+        cis = sorted(set(k[0] for k in per))
+        for ev in judge_outputs(ctx, [(cases[ci], res[ci]) for ci in cis]):
+            evs[(cis[ev.ci], ev.ri)] = ev
     for key, v in per.items():
         stats['stage_failures:%s:%s' % (v['stage'], v['tag'] or 'UNEXPLAINED')] += 1
-        vio = {'what': 'graph %s%s' % (v['what'], (' (+%d more at this stage)' % (v['n'] - 1)) if v['n'] > 1 else ''),
-               'replay_obj': replay_obj(v['case'], v['run'], v['stage'], v['tx']), 'no_input': False}
-        if v['tag']:
-            vio['finding'] = v['tag']
+        ev = evs.get((key[0], key[1]))
+        corr, out_tags = corroboration(ev, v['tx'])
+        what = 'graph %s%s' % (v['what'], (' (+%d more at this stage)' % (v['n'] - 1)) if v['n'] > 1 else '')
+        robj = replay_obj(v['case'], v['run'], v['stage'], v['tx'])
+        if not corr:
+            k2 = '%s:%s' % (v['stage'], v['tag'] or 'untagged')
+            an['counts'][k2] = an['counts'].get(k2, 0) + 1
+            stats['stage_anomalies_total'] += 1
+            if len(an['examples']) < 12:
+                an['examples'].append(what[:300])
+            if len(an['replays']) < 5:
+                robj['anomaly'] = what
+                if hasattr(ctx, 'write_replay'):
+                    an['replays'].append(ctx.write_replay('graph-anomaly-%d' % len(an['replays']), robj))
+                else:
+                    an['replays'].append(robj)
+            continue
+        stats['stage_failures_corroborated:%s' % v['stage']] += 1
+        tag = v['tag'] or (sorted(out_tags)[0] if (out_tags and None not in out_tags) else None)
+        vio = {'what': '%s; corroborated at the output of the same run: %s' % (what, corr), 'replay_obj': robj, 'no_input': False}
+        if tag:
+            vio['finding'] = tag
         violations.append(vio)
+    stats['stage_anomalies'] = an
+
+def judge_outputs(ctx, cases_results):
+    """the output-level judges of C01 / C02 (cvcheck.run_batch / cvcheck2.run_batch_ext: must_set <= FASTA, realizable,
+    classified by the existing signatures) applied to the FASTA of THESE runs: impl.run_cases is replaced, for the
+    duration of the call, by a look-up of the results the graph worker already returned"""
+    from harness.lib import cvcheck2 as CK2
+    copies, table = [], {}
+    for c, r_all in cases_results:
+        cc = json.loads(json.dumps(CK.strip_case(c)))
+        for run in cc['runs']:
+            run.update(fusion_must=True, as_must=True, circ_must=True)
+        if 'runs' in r_all:
+            rr = {'runs': [{k: v for k, v in r.items() if k not in ('graphs', 'dumped_files', 'snapshot_errors')} for r in r_all['runs']]}
+        else:
+            rr = r_all
+        copies.append(cc)
+        table[id(cc)] = rr
+    orig = I.run_cases
+    def fake(script, cs, **k):
+        if all(id(c) in table for c in cs):
+            return [table[id(c)] for c in cs]
+        return orig(script, cs, **k)        # re-runs asked for by a signature (e.g. the flicker form): the real runner
+    I.run_cases = fake
+    try:
+        return CK2.run_batch(ctx, copies, want_may=False, tag='c02gj')
+    finally:
+        I.run_cases = orig
+
+def corroboration(ev, key):
+    """(text or None, set of finding tags of the corroborating peptides) for the graph `key` of the run judged in ev"""
+    if ev is None or ev.exc:
+        return None, set()
+    parts = key.split('|')
+    names = set([parts[0]] + ([parts[2]] if len(parts) > 2 else []))
+    extras = [p for p in ev.extra if any(h.split('|')[0] in names for h in ev.got.get(p, []))]
+    missing = list(ev.missing)
+    if not extras and not missing:
+        return None, set()
+    # this stream is registered under C02: an unrealizable FASTA sequence is C02's own statement and decides the finding
+    # tag; missing obliged peptides (C01's statement) decide it only when no sequence is unrealizable
+    tags = set(ev.extra[p] for p in extras) if extras else set(ev.missing[p] for p in missing)
+    txt = []
+    if extras:
+        txt.append('FASTA sequence(s) %s not realizable' % sorted(extras)[:3])
+    if missing:
+        txt.append('obliged peptide(s) %s missing' % sorted(missing)[:3])
+    return ' and '.join(txt), tags
 
 def interpret_ext(meta, out, case, run, by_tx, stats):
     """reply of ag_ext_fusion / ag_ext_as / ag_ext_circ -> list of (what, finding or None, ctype)"""
@@ -519,4 +599,4 @@ def replay(ctx, obj, reps=1):
         k = (v.get('finding'), v['what'])
         if k not in seen:
             seen.add(k); out.append(v)
-    return dict(violations=out, stats=dict(stats))
+    return dict(violations=out, stats={k: v for k, v in stats.items() if k != 'stage_anomalies'}, stage_anomalies=stats.get('stage_anomalies'))
